@@ -858,6 +858,16 @@ func (h *histRun) feed() {
 	}
 }
 
+// hasConnNote reports whether the hook site was noted for any resource of the connection.
+func (h *histRun) hasConnNote(site, cid string) bool {
+	for _, n := range verifhook.Notes() {
+		if n.Site == site && strings.HasPrefix(n.Detail, cid+" ") {
+			return true
+		}
+	}
+	return false
+}
+
 func (h *histRun) hasNote(site, cid, rid string) bool {
 	want := cid + " " + rid
 	for _, n := range verifhook.Notes() {
@@ -1077,7 +1087,9 @@ func (h *histRun) checkQuiescent(final bool) {
 					// finding C: a deleted subscription that is populated again is
 					// re-sent, counting its references a second time
 					revived := h.hasNote("populate.deleted", c.CID, rid)
-					unsent := h.hasNote("sub.eventUnsent", c.CID, rid)
+					// an event processed on an unsent subscription of this connection
+					// may have added or removed a reference to this one meanwhile
+					unsent := h.hasConnNote("sub.eventUnsent", c.CID)
 					for prid, ps := range snap.Subs {
 						if _, ok := ps.Refs[rid]; ok {
 							revived = revived || h.hasNote("populate.deleted", c.CID, prid)
